@@ -17,5 +17,5 @@ prop(
     not_decided=[],
 )
 
-for _p in ("C01", "C02", "C03", "C05", "C06", "C09", "C10", "C11", "C14", "C15", "C16", "C19"):
+for _p in ("C01", "C02", "C03", "C04", "C05", "C06", "C07", "C08", "C09", "C10", "C11", "C12", "C13", "C14", "C15", "C16", "C19", "C20"):
     prop(_p, level="proof", explanation="", trusted=[], not_decided=[])
